@@ -92,6 +92,9 @@ def block_mean_t_p(x, mu0, blocks=40):
         return 1.0, {}
     b = x[:n].reshape(blocks, -1).mean(axis=1)
     m, s = b.mean(), b.std(ddof=1)
+    if abs(m - mu0) <= 2e-5 * (1.0 + abs(mu0)):
+        # agreement to float32 accuracy: a (near) zero-variance estimator must not be failed on round-off
+        return 1.0, {"mean": float(m), "ref": float(mu0)}
     if s == 0:
         return (1.0 if abs(m - mu0) <= 1e-6 * (1 + abs(mu0)) else 0.0), {"mean": float(m), "ref": float(mu0)}
     t = (m - mu0) / (s / math.sqrt(blocks))
